@@ -2,7 +2,8 @@
 
  * seeded changes (/verif/seeded/<prop>-k, confirmed to break the property while passing the 109 tests) and the
    inverses of the repairs (/verif/selftest/defects) must be reported with a VIOLATION;
- * behaviour-preserving refactorings (/verif/selftest/equivalents) must stay silent;
+ * behaviour-preserving refactorings (/verif/selftest/equivalents) must stay silent, and so must the mechanical
+   transformations of the current tree built by selftest/probes.py;
  * the first-order mutants of the authoring-time survey whose dynamic oracle recorded a violation of this property
    are re-generated in memory and analysed (never executed); the detection rate is reported and must not fall below
    the floor recorded in expectations.json.
@@ -138,6 +139,11 @@ def run_for_property(prop, P, seed, jobs=16):
                 jobs_.append((prop, src))
                 meta.append((f, ln, desc, verd))
         sres = list(ex.map(_analyse_sources, jobs_, chunksize=4))
+        # mechanical behaviour-preserving transformations of the current tree (built in memory, analysed only)
+        from .probes import variants
+
+        pv = variants(dict(P.sources), repo_root)
+        pres = list(ex.map(_analyse_sources, [(prop, src) for name, src, err in pv if src is not None]))
     tallies = {"seeded": [0, 0], "defect": [0, 0], "equivalent": [0, 0]}
     for (kind, name, path, want), r in zip(pats, res):
         code = r[0]
@@ -154,6 +160,19 @@ def run_for_property(prop, P, seed, jobs=16):
                 lines.append("SELFTEST-FAIL property=%s %s %s is NOT reported (exit %s) %s" % (prop, kind, name, code, r[2]))
             else:
                 lines.append("SELFTEST-FAIL property=%s equivalent %s raises an alarm (exit %s): %s %s" % (prop, name, code, r[1], r[2]))
+    probe_total = probe_silent = 0
+    it = iter(pres)
+    for name, src, err in pv:
+        if src is None:
+            lines.append("SELFTEST probe %s could not be built on the current tree (skipped): %s" % (name, err))
+            continue
+        r = next(it)
+        probe_total += 1
+        if r[0] == 0:
+            probe_silent += 1
+        else:
+            failed = True
+            lines.append("SELFTEST-FAIL property=%s behaviour-preserving transformation `%s` of the current tree raises an alarm (exit %s): %s" % (prop, name, r[0], r[1][:6]))
     caught = sum(1 for r in sres if r[0] == 1)
     undec = sum(1 for r in sres if r[0] == 2)
     missed = [(m, r) for m, r in zip(meta, sres) if r[0] == 0]
@@ -162,6 +181,7 @@ def run_for_property(prop, P, seed, jobs=16):
         "seeded_changes_reported": "%d/%d" % tuple(tallies["seeded"]),
         "repair_inverses_reported": "%d/%d" % tuple(tallies["defect"]),
         "equivalents_silent": "%d/%d" % tuple(tallies["equivalent"]),
+        "mechanical_transformations_silent": "%d/%d" % (probe_silent, probe_total),
         "survey_mutants_with_recorded_violation": len(sres),
         "survey_reported": caught,
         "survey_analysis_error": undec,
@@ -172,6 +192,6 @@ def run_for_property(prop, P, seed, jobs=16):
     if floor is not None and caught + undec < floor:
         failed = True
         lines.append("SELFTEST-FAIL property=%s survey detection %d (+%d analysis errors) fell below the recorded floor %d" % (prop, caught, undec, floor))
-    lines.append("SELFTEST property=%s seeded %s, repair inverses %s, equivalents silent %s, survey mutants reported %d/%d (analysis errors %d)" % (
-        prop, summary["seeded_changes_reported"], summary["repair_inverses_reported"], summary["equivalents_silent"], caught, len(sres), undec))
+    lines.append("SELFTEST property=%s seeded %s, repair inverses %s, equivalents silent %s, mechanical transformations silent %s, survey mutants reported %d/%d (analysis errors %d)" % (
+        prop, summary["seeded_changes_reported"], summary["repair_inverses_reported"], summary["equivalents_silent"], summary["mechanical_transformations_silent"], caught, len(sres), undec))
     return {"summary": summary, "lines": lines, "failed": failed}
